@@ -2,6 +2,7 @@
 from __future__ import annotations
 
 import multiprocessing as mp
+import json
 import os
 import subprocess
 import tempfile
@@ -21,6 +22,12 @@ from .execu import CONTRACTS, CallArgs, Contract, Executor, Norm, Raise, Ret
 
 Z3_TIMEOUT_MS = int(os.environ.get("PYVC_Z3_TIMEOUT_MS", "16000"))
 CVC5_TIMEOUT_MS = int(os.environ.get("PYVC_CVC5_TIMEOUT_MS", "8000"))
+# The budgets that DECIDE a verdict are deterministic resource counters (z3 rlimit, cvc5 --rlimit), not
+# wall-clock time: a loaded machine makes a check slower, never different.  WALL_GUARD_MS only stops a
+# solver that hangs outside its resource accounting.
+Z3_RLIMIT = int(os.environ.get("PYVC_Z3_RLIMIT", "0"))
+Z3_RLIMIT_MBQI = int(os.environ.get("PYVC_Z3_RLIMIT_MBQI", "0"))
+WALL_GUARD_MS = int(os.environ.get("PYVC_WALL_GUARD_MS", str(Z3_TIMEOUT_MS // 2)))
 
 
 @dataclass
@@ -283,15 +290,32 @@ def _solve_cli(idx, text, t0):
 _POOL_OBS: List[Obligation] = []
 
 
-def _check_goal(base_pc, goal, opts, tmo):
+def _rlimit_of(s):
+    try:
+        st = s.statistics()
+        for k in st.keys():
+            if k == "rlimit count":
+                return int(st.get_key_value(k))
+    except Exception:
+        pass
+    return 0
+
+
+def _check_goal(base_pc, goal, opts, tmo, rlimit=0):
+    """One z3 query.  The budget that decides the verdict is `rlimit` (z3's deterministic resource
+    counter), so that the verdict does not depend on machine load; `tmo` is only a wall-clock guard."""
     s = z3.Solver()
     s.set("timeout", tmo)
+    if rlimit:
+        s.set("rlimit", rlimit)
     for k2, v2 in opts.items():
         s.set(k2, v2)
     s.add(*GLOBAL_AXIOMS)
     s.add(*base_pc)
     s.add(z3.Not(goal))
     r = s.check()
+    _check_goal.last_rlimit = _rlimit_of(s)
+    _check_goal.last_reason = s.reason_unknown() if r == z3.unknown else ""
     if r == z3.sat:
         try:
             return "failed", str(s.model())[:8000]
@@ -309,23 +333,29 @@ def _solve_group(idxs):
         t0 = time.time()
         if ob.kind == "canary":
             st, _ = _check_goal(ob.pc, ob.goal, {}, 3000)
-            out.append((idx, st, "z3-5.1", (time.time() - t0) * 1000, ""))
+            out.append((idx, st, "z3-5.1", (time.time() - t0) * 1000, "", 0))
             continue
         done = False
-        for backend, opts, tmo in (("z3-5.1", {}, Z3_TIMEOUT_MS // 2),
-                                   ("z3-5.1-mbqi", {"smt.ematching": False}, Z3_TIMEOUT_MS // 2)):
+        used = 0
+        reasons = []
+        for backend, opts, rl in (("z3-5.1", {}, Z3_RLIMIT),
+                                  ("z3-5.1-mbqi", {"smt.ematching": False}, Z3_RLIMIT_MBQI)):
             try:
-                st, mt = _check_goal(ob.pc, ob.goal, opts, tmo)
+                st, mt = _check_goal(ob.pc, ob.goal, opts, WALL_GUARD_MS, rl)
+                used = max(used, getattr(_check_goal, "last_rlimit", 0))
+                if st == "unknown":
+                    reasons.append(f"{backend}: {getattr(_check_goal, 'last_reason', '')}")
             except z3.Z3Exception as e:
                 st, mt = "unknown", str(e)
+                reasons.append(f"{backend}: {e}")
             if st != "unknown":
-                out.append((idx, st, backend, (time.time() - t0) * 1000, mt))
+                out.append((idx, st, backend, (time.time() - t0) * 1000, mt, used))
                 done = True
                 break
         if done:
             continue
         r = _solve_one((idx, to_smt2(ob), True, True))
-        out.append((idx, r[1], r[2], (time.time() - t0) * 1000, r[4]))
+        out.append((idx, r[1], r[2], (time.time() - t0) * 1000, r[4] or ("; ".join(reasons) if r[1] == "unknown" else ""), used))
     return out
 
 
@@ -355,6 +385,13 @@ def discharge(obligations: List[Obligation], procs: int = 0):
         with ctx.Pool(procs) as pool:
             results = pool.map(_solve_group, sorted(tasks, key=len, reverse=True), chunksize=1)
     for res in results:
-        for idx, status, backend, ms, mt in res:
+        for idx, status, backend, ms, mt, used in res:
             ob = obligations[idx]
             ob.status, ob.backend, ob.ms, ob.model_text = status, backend, ms, mt
+            ob.rlimit_used = used
+    if os.environ.get("PYVC_STATS"):
+        with open(os.environ["PYVC_STATS"], "a") as f:
+            for ob in obligations:
+                if ob.kind != "canary":
+                    f.write(json.dumps({"name": ob.name, "status": ob.status, "backend": ob.backend,
+                                        "ms": round(ob.ms or 0), "rlimit": getattr(ob, "rlimit_used", 0)}) + "\n")
